@@ -61,8 +61,9 @@ SCHEMAS: List[Dict[str, Any]] = [
     {'type': 'integer'}, {'type': 'number'}, {'type': 'string'}, {'type': 'boolean'}, {'type': 'array'}, {'type': 'object'}, {'type': 'null'},
     {'enum': [1, 'a', None]}, {'type': 'integer', 'minimum': 0, 'maximum': 10}, {'type': 'number', 'minimum': 0.5}, {'type': 'string', 'minLength': 2},
     {'type': 'array', 'items': {'type': 'integer'}}, {}, {'type': ['integer', 'null']},
+    {'type': 'string', 'format': 'ipv4'},     # enforced only when the method's validator arguments carry a format checker
 ]
-SCHEMA_VALUES: List[Any] = [0, 1, -1, 11, 1.0, 1.5, 0.25, True, False, None, '', 'a', 'ab', [], [1, 2], [1, 'x'], [1.0], {}, {'a': 1}, 10**30]
+SCHEMA_VALUES: List[Any] = [0, 1, -1, 11, 1.0, 1.5, 0.25, True, False, None, '', 'a', 'ab', [], [1, 2], [1, 'x'], [1.0], {}, {'a': 1}, 10**30, '1.2.3.4', '10.0.0.256']
 
 
 # ---- reference JSON-Schema evaluator for exactly the generated vocabulary (independent of the jsonschema package) -------
@@ -100,7 +101,14 @@ def _json_equal(a: Any, b: Any) -> bool:
     return a == b
 
 
-def schema_ok(s: Dict[str, Any], v: Any) -> bool:
+def _ipv4(v: str) -> bool:
+    parts = v.split('.')
+    return len(parts) == 4 and all(p.isdigit() and 0 <= int(p) <= 255 for p in parts)
+
+
+def schema_ok(s: Dict[str, Any], v: Any, formats: bool = False) -> bool:
+    if formats and s.get('format') == 'ipv4' and isinstance(v, str) and not _ipv4(v):
+        return False
     if 'type' in s:
         ts = s['type'] if isinstance(s['type'], list) else [s['type']]
         if not any(_type_ok(t, v) for t in ts):
@@ -114,7 +122,7 @@ def schema_ok(s: Dict[str, Any], v: Any) -> bool:
             return False
     if isinstance(v, str) and 'minLength' in s and len(v) < s['minLength']:
         return False
-    if isinstance(v, (list, tuple)) and 'items' in s and not all(schema_ok(s['items'], x) for x in v):
+    if isinstance(v, (list, tuple)) and 'items' in s and not all(schema_ok(s['items'], x, formats) for x in v):
         return False
     if isinstance(v, dict):
         for k in s.get('required', []):
@@ -123,7 +131,7 @@ def schema_ok(s: Dict[str, Any], v: Any) -> bool:
         props = s.get('properties', {})
         for k, x in v.items():
             if k in props:
-                if not schema_ok(props[k], x):
+                if not schema_ok(props[k], x, formats):
                     return False
             elif s.get('additionalProperties', True) is False:
                 return False
@@ -160,7 +168,7 @@ class C14(Check):
     rule = (
         "cases: signatures of 1..3 parameters (positional-or-keyword / keyword-only, with / without defaults) plus optional context parameter "
         "and optional parameters excluded by an exclusion predicate (name prefix 'dep_'), as plain function, coroutine or class based view "
-        "method; JSON-schema half: per-parameter fragments from 14 schemas (type incl. unions, enum, minimum / maximum, minLength, items.type) + "
+        "method; JSON-schema half: per-parameter fragments from 15 schemas (type incl. unions, enum, minimum / maximum, minLength, items.type, a string format that is enforced only when the method's own validator arguments carry a format checker) + "
         "top-level required / additionalProperties; pydantic half: annotations int, str, float, bool, Optional[int], List[int], Dict[str,int], "
         "an Enum, a model class, a model class whose validator raises ValueError, unannotated; coerce on / off; argument values from per-type "
         "alphabets of conforming, coercible ('1', 1.0, 'yes') and non-conforming values, passed positionally or by name, incl. unknown names, "
@@ -178,13 +186,13 @@ class C14(Check):
     trusted_base = ['pydantic.TypeAdapter', 'reference JSON-schema evaluator in checks/c14.py', 'python call binding']
     required_classes = ['validator/jsonschema', 'validator/pydantic', 'coerce/on', 'coerce/off', 'outcome/executed', 'outcome/refused-by-binding',
                         'outcome/refused-by-validation', 'flavour/func', 'flavour/view', 'ctx/yes', 'excluded/yes', 'attack/excluded-name-supplied',
-                        'converted', 'type/vmodel-rejects', 'passing/positional', 'passing/named', 'dispatcher/async', 'sibling-same-name-served-first']
+                        'converted', 'type/vmodel-rejects', 'passing/positional', 'passing/named', 'dispatcher/async', 'sibling-same-name-served-first', 'format/checked', 'format/not-checked']
 
     def strategy(self, tier: str):
         s_kind = st.sampled_from(['PK', 'PK', 'KO'])
         s_bool = st.booleans()
         s_tname = st.sampled_from(sorted(TYPES))
-        s_schema = st.integers(0, len(SCHEMAS) - 1)
+        s_schema = st.sampled_from(list(range(len(SCHEMAS))) + [len(SCHEMAS) - 1] * 4)      # extra weight on the format fragment
         s_sval = st.sampled_from(SCHEMA_VALUES)
         s_idx = st.integers(0, 20)
         s_bits = st.integers(0, 255)
@@ -252,6 +260,10 @@ class C14(Check):
                     top['additionalProperties'] = False
             case_ = {'dispatcher': draw(st.sampled_from(['sync', 'sync', 'async'])), 'validator': validator, 'flavour': flavour, 'ctx': ctx,
                      'excluded': excluded, 'coerce': draw(s_bool), 'params': params, 'top': top, 'args': args}
+            if validator == 'jsonschema':
+                # per-method validator arguments besides the schema: a format checker for this method and / or for the sibling
+                case_['format_checker'] = draw(st.integers(0, 3)) == 0
+                case_['sibling_format_checker'] = draw(s_bool)
             if flavour == 'func' and draw(st.integers(0, 2)) == 0:
                 # a second function with the SAME python name (another module's 'meth') sharing the validator instance, served first
                 sib = [{'name': q['name'], 'kind': q['kind'], **({'type': draw(s_tname)} if validator == 'pydantic' else {'schema': draw(s_schema)})}
@@ -287,6 +299,9 @@ class C14(Check):
             validator = vjs.JsonSchemaValidator(exclude_param=exclude_fn)
             schema = {'type': 'object', 'properties': {p['name']: SCHEMAS[p['schema']] for p in params}, **spec['top']}
             vargs = {'schema': schema}
+            if spec.get('format_checker'):
+                import jsonschema
+                vargs['format_checker'] = jsonschema.FormatChecker()
         ns: Dict[str, Any] = {'_body': _body, 'NOCTX': hm.NOCTX}
         parts: List[str] = []
         star = False
@@ -316,7 +331,7 @@ class C14(Check):
         ctx_expr = 'self._ctx' if view else ('ctx' if spec['ctx'] else 'NOCTX')
         a = 'async ' if is_async else ''
         if view:
-            src = (f"class View(ViewMixin):\n    def __init__(self, context=NOCTX):\n        super().__init__()\n        self._ctx = context\n"
+            src = (f"class View(ViewMixin):\n    def __init__(self, view_context=NOCTX):\n        super().__init__()\n        self._ctx = view_context\n"
                    f"    {a}def meth({', '.join(parts)}):\n        return _body({bound}, {ctx_expr})\n")
             ns['ViewMixin'] = pjrpc.server.ViewMixin
             exec(src, ns)
@@ -343,7 +358,9 @@ class C14(Check):
                 if spec['validator'] == 'pydantic':
                     sfn = validator.validate(ns2['meth'])
                 else:
-                    sfn = validator.validate(ns2['meth'], schema={'type': 'object', 'properties': {p['name']: SCHEMAS[p['schema']] for p in spec['sibling']}})
+                    import jsonschema
+                    extra = {'format_checker': jsonschema.FormatChecker()} if spec.get('sibling_format_checker') else {}
+                    sfn = validator.validate(ns2['meth'], schema={'type': 'object', 'properties': {p['name']: SCHEMAS[p['schema']] for p in spec['sibling']}}, **extra)
                 reg.add(sfn, 'sibling')
         d = pjrpc.server.AsyncDispatcher() if is_async else pjrpc.server.Dispatcher()
         d.add_methods(reg)
@@ -367,7 +384,7 @@ class C14(Check):
         if spec['validator'] == 'jsonschema':
             schema = {'type': 'object', 'properties': {p['name']: SCHEMAS[p['schema']] for p in params}, **spec['top']}
             explicit_args = {k: v for k, v in raw.items() if k in explicit}
-            if not schema_ok(schema, explicit_args):
+            if not schema_ok(schema, explicit_args, formats=bool(spec.get('format_checker'))):
                 return 'validation', None
             expected = {k: describe(v) for k, v in raw.items()}
         else:
@@ -452,6 +469,8 @@ class C14(Check):
                 classes.append('converted')
         if spec.get('sibling'):
             classes.append('sibling-same-name-served-first')
+        if spec['validator'] == 'jsonschema' and any(SCHEMAS[p['schema']].get('format') for p in spec['params']):
+            classes.append('format/checked' if spec.get('format_checker') else 'format/not-checked')
         if verdict == 'validation' and any(p.get('type') == 'vmodel' for p in spec['params']):
             classes.append('type/vmodel-rejects')
         constrained = any((p.get('type') not in (None, 'any')) if spec['validator'] == 'pydantic' else bool(SCHEMAS[p['schema']]) for p in spec['params']) or bool(spec['top'])
